@@ -29,7 +29,7 @@ pub struct FaultyStore {
     pub calls: Mutex<Vec<String>>,
     /// while set, every mutating call fails with nothing written
     pub fail_all: Arc<AtomicBool>,
-    /// the next call of this read ("list" = get_keyspace_list, "meta" = iter_metadata) fails once
+    /// the next call of this read ("list" = get_keyspace_list, "meta" = iter_metadata, "fetch" = get / multi_get) fails once
     pub fail_read: Mutex<Option<&'static str>>,
     /// while non-zero, every mutating call first waits this many milliseconds (a replica that answers late)
     pub delay_ms: Arc<AtomicU64>,
@@ -202,10 +202,18 @@ impl Storage for FaultyStore {
     }
 
     async fn get(&self, keyspace: &str, doc_id: Key) -> Result<Option<Document>, Self::Error> {
+        if *self.fail_read.lock() == Some("fetch") {
+            *self.fail_read.lock() = None;
+            return Err(injected());
+        }
         self.inner.get(keyspace, doc_id).await
     }
 
     async fn multi_get(&self, keyspace: &str, doc_ids: impl Iterator<Item = Key> + Send) -> Result<Self::DocsIter, Self::Error> {
+        if *self.fail_read.lock() == Some("fetch") {
+            *self.fail_read.lock() = None;
+            return Err(injected());
+        }
         self.inner.multi_get(keyspace, doc_ids).await
     }
 }
